@@ -137,6 +137,9 @@ def cone_set(tier, dims=(2, 3), include_K_gt_m=True, seed=0):
         cones.append(("orthant3", np.eye(3)))
         for t in ("acute", "obtuse"):
             cones.append((f"3d_{t}", _order_W(ConeOrder3D, t)))
+        # an asymmetric cone whose facets have clearly different α_n (0.711, 0.716, 0.883)
+        Wa = np.array([[1.0, -0.8, 0.0], [0.0, 1.0, -0.2], [-0.3, 0.0, 1.0]])
+        cones.append(("asym3d", Wa / np.linalg.norm(Wa, axis=1, keepdims=True)))
         if include_K_gt_m:
             ks = [4, 6] if tier != "quick" else [4]
             for k in ks:
